@@ -1264,6 +1264,17 @@ static void run(const std::vector<std::string> &tk)
         }
         emit(s);
     }
+    else if (c == "order") {
+        // order F : the variable at every level of forest F
+        ForestInfo &fi = forestOf(tk[1]);
+        std::string s = "order";
+        for (int k=1; k<=int(fi.F->getNumVariables()); k++) {
+            char buf[32];
+            snprintf(buf, 32, " %d", fi.F->getVarByLevel(k));
+            s += buf;
+        }
+        emit(s);
+    }
     else if (c == "term") cmd_term(tk);
     else if (c == "mm") cmd_mm(tk);
     else throw Bad("unknown command " + c);
